@@ -104,7 +104,16 @@ func (e *Exec) loopEnv(st *State, n ast.Node, inner token.Pos) *SpecEnv {
 	}
 	pk := e.curPkg()
 	hidden := e.curHidden
+	outerHidden := e.outerHidden
 	env.goName = func(name string, s *State) (Value, bool) {
+		if name == "$idxouter" {
+			// hidden range index of the nearest enclosing range loop that has one
+			if outerHidden != nil {
+				v, ok := s.store[outerHidden]
+				return v, ok
+			}
+			return nil, false
+		}
 		if name == "$idx" {
 			if hidden != nil {
 				v, ok := s.store[hidden]
@@ -160,13 +169,14 @@ type loopDesc struct {
 }
 
 func (e *Exec) loopCut(st *State, d loopDesc) []Outcome {
-	savedHidden := e.curHidden
+	savedHidden, savedOuter := e.curHidden, e.outerHidden
+	e.outerHidden = savedHidden
 	if len(d.extra) > 0 {
 		e.curHidden = d.extra[0]
 	} else {
 		e.curHidden = nil
 	}
-	defer func() { e.curHidden = savedHidden }()
+	defer func() { e.curHidden, e.outerHidden = savedHidden, savedOuter }()
 	spec, key := e.loopSpec(d.node)
 	var invs []*Clause
 	if spec != nil {
